@@ -257,9 +257,19 @@ def constructor_attributes(r, init_name):
         for t in tgts:
             for t1 in (t.elts if isinstance(t, (ast.Tuple, ast.List)) else [t]):
                 if isinstance(t1, ast.Attribute) and isinstance(t1.value, ast.Name) and t1.value.id == 'self':
-                    cont = isinstance(val, (ast.Dict, ast.Set, ast.List, ast.DictComp, ast.SetComp, ast.ListComp)) or \
-                        (isinstance(val, ast.Call) and isinstance(val.func, ast.Name) and val.func.id in ('dict', 'set', 'list', 'defaultdict', 'OrderedDict', 'deque', 'bytearray'))
+                    # anything that is not plainly a scalar expression counts as a container (a call may return one)
+                    cont = not isinstance(val, (ast.Constant, ast.Compare, ast.BoolOp, ast.UnaryOp, ast.BinOp, ast.Name, ast.Attribute, ast.IfExp, ast.JoinedStr, type(None)))
                     out[t1.attr] = out.get(t1.attr, False) or cont
+    return out
+
+
+def unknown_ctor_attrs(r, init_name, known, label):
+    """Attributes the real constructor creates and the harness does not model, with unknown content (the object has an
+    arbitrary history): a container reads as a HavocState, anything else is opaque."""
+    out = {}
+    for a, is_container in constructor_attributes(r, init_name).items():
+        if a not in known:
+            out[a] = HavocState(f'{label}.{a}') if is_container else Opaque(f'{label}.{a}')
     return out
 
 
